@@ -140,6 +140,13 @@ func (c *Client) validateVirtualChannelSettlementProposal(
 		return errors.New("virtual channel must not be de-allocated after update")
 	}
 
+	// Assert that exactly the virtual channel's sub-allocation is removed.
+	remaining := parent.state().Clone()
+	if remaining.RemoveSubAlloc(subAlloc) != nil ||
+		channel.SubAllocsAssertEqual(remaining.Locked, prop.State.Locked) != nil {
+		return errors.New("invalid sub-allocations")
+	}
+
 	// Assert correct balances
 	virtual := transformBalances(prop.Final.State.Balances, parent.state().NumParts(), subAlloc.IndexMap)
 	correctBalances := parent.state().Balances.Add(virtual).Equal(prop.State.Balances)
